@@ -92,15 +92,20 @@ def refusal_class(rule: dict, reason: str) -> str:
 
 
 def check_length_field(wire: bytes, text: str) -> tuple:
-    try:
-        n, h = rf.read_length(wire)
-    except rf.Malformed as exc:
-        raise Violation('encode:length-field', f'{exc} in {wire[:8].hex()} for "{text[:200]}"') from None
-    if h + n != len(wire):
-        raise Violation('encode:length-value', f'length field says {n}, {len(wire) - h} octets follow, for "{text[:200]}"')
-    if (n < 240) != (h == 1):
-        raise Violation('encode:length-form', f'{n} octets announced in {h} octet(s): {wire[:2].hex()} for "{text[:200]}"')
-    return n, h
+    """RFC 8955 4.1: one octet below 240, 0xfnnn from 240 to 4095; returns (value length, octets of the length field)"""
+    shown = f'{wire[:3].hex()}... ({len(wire)} octets) for "{text[:200]}"'
+    if len(wire) < 1:
+        raise Violation('encode:length-value', f'empty NLRI for "{text[:200]}"')
+    one, two = len(wire) - 1, len(wire) - 2
+    if wire[0] == one and one < 240:
+        return one, 1
+    if two >= 240 and wire[0] == 0xF0 | (two >> 8) and wire[1] == two & 0xFF and two <= 4095:
+        return two, 2
+    if wire[0] == one & 0xFF and one >= 240:
+        raise Violation('encode:length-form', f'{one} octets announced in a single octet: {shown}')
+    if two >= 0 and wire[0] & 0xF0 == 0xF0 and ((wire[0] & 0x0F) << 8) | wire[1] == two:
+        raise Violation('encode:length-form', f'{two} octets announced in two octets: {shown}')
+    raise Violation('encode:length-value', f'the length field matches neither {one} in one octet nor {two} in two: {shown}')
 
 
 def prefixes_match(decoded: dict, expected: list) -> bool:
@@ -131,7 +136,8 @@ def compare_components(rule: dict, decoded: dict, expected: list, text: str, wir
             raise Violation('encode:test-count', f'component {ctype}: {len(terms)} tests for {len(want)}: {short}')
         flags = [t['eol'] for t in terms]
         if flags != [0] * (len(terms) - 1) + [1]:
-            raise Violation('encode:end-of-list', f'component {ctype}: end-of-list bits {flags}: {short}')
+            where = [i for i, f in enumerate(flags) if f]
+            raise Violation('encode:end-of-list', f'component {ctype}: end-of-list set on test(s) {where} of {len(flags)}: {short}')
         for i, (t, (and_bit, op, value)) in enumerate(zip(terms, want)):
             if t['and'] != and_bit:
                 raise Violation('encode:and-bit', f'component {ctype} test {i}: AND {t["and"]} for {and_bit}: {short}')
@@ -245,26 +251,32 @@ def check_encode(rule: dict) -> dict:
 
     # ---- components
     deferred: list = []
-    decoded, strict_error = None, None
-    try:
-        decoded = rf.decode_body(value, afi, vpn)
-    except rf.Malformed as exc:
-        strict_error = exc
     offset_prefixes = afi == 2 and any(isinstance(w, tuple) and w[2] > 0 for _, w in expected)
-    if offset_prefixes and (decoded is None or not prefixes_match(decoded, expected)):
-        # does the deviation have a name?  read the octets the way the early flow-spec-v6 drafts laid a prefix out
-        try:
-            draft = rf.decode_body(value, afi, vpn, ipv6_layout='whole-prefix')
-        except rf.Malformed:
-            draft = None
-        if draft is not None and prefixes_match(draft, expected):
-            deferred.append(
-                Violation(
-                    'encode:ipv6-offset-pattern',
-                    f'prefix with offset > 0 carries ceil(length/8) octets from bit 0 instead of the length-offset pattern bits (RFC 8956 3.1): "{text[:200]}" -> {wire[:60].hex()}',
-                )
+    counts = {t: len(w) for t, w in expected if not isinstance(w, tuple)}
+    strict_error = None
+    decoded, layout, guided = None, None, False
+    # 1. the strict RFC reading.  2. when the rule has an IPv6 offset and that reading does not give the written prefixes:
+    # the layout of the early flow-spec-v6 drafts, to give the deviation its name.  3. when the reader loses its place:
+    # both again, told how many tests each component was given, so that compare_components can name the wrong field
+    for use_counts in (None, counts):
+        for candidate in ('rfc8956', 'whole-prefix') if offset_prefixes else ('rfc8956',):
+            try:
+                reading = rf.decode_body(value, afi, vpn, ipv6_layout=candidate, counts=use_counts)
+            except rf.Malformed as exc:
+                if strict_error is None:
+                    strict_error = exc
+                continue
+            if decoded is None or (not prefixes_match(decoded, expected) and prefixes_match(reading, expected)):
+                decoded, layout, guided = reading, candidate, use_counts is not None
+        if decoded is not None:
+            break
+    if decoded is not None and layout == 'whole-prefix' and prefixes_match(decoded, expected):
+        deferred.append(
+            Violation(
+                'encode:ipv6-offset-pattern',
+                f'prefix with offset > 0 carries ceil(length/8) octets from bit 0 instead of the length-offset pattern bits (RFC 8956 3.1): "{text[:200]}" -> {wire[:60].hex()}',
             )
-            decoded = draft
+        )
     if decoded is None:
         if rule['probe']:
             raise Violation('encode:out-of-range-emitted', f'"{text[:200]}" -> {wire.hex()[:200]}: {strict_error}') from None
@@ -274,6 +286,8 @@ def check_encode(rule: dict) -> dict:
         if not got or [t['value'] for t in got[0]['terms']] != [rule['probe']['value']]:
             raise Violation('encode:out-of-range-emitted', f'"{text[:200]}" -> {wire.hex()[:200]}')
     compare_components(rule, decoded, expected, text, wire, deferred)
+    if guided:
+        raise Violation(f'encode:undecodable:{strict_error.kind}', f'{strict_error}: "{text[:300]}" -> {wire[:120].hex()}')
     host_bits = rule['afi'] == 1 and any(isinstance(w, tuple) and w[1].split('/')[0] != str(ipaddress.ip_address(w[3])) for _, w in expected)
     if not deferred and not host_bits and want_value is not None and value != want_value:
         # catch-all: the octets must be the ones the refwire builders give for the record
